@@ -2,6 +2,7 @@ package main
 
 import (
 	"fmt"
+	"sort"
 	"strings"
 
 	"github.com/openacid/low/sigbits"
@@ -12,7 +13,26 @@ func init() {
 		ls, bs := sigbits.ShardByPrefix(a[0].Strs(), a[1].I32())
 		return L(I32s(ls), I32s(bs))
 	}
+	// the returned prefixes used as a routing table: every key is looked up by an upper-bound
+	// search (last prefix <= key) over the prefixes keys[B[j]][:L[j]] of the REAL output
+	Exec["sigbits.ShardByPrefix/route"] = func(a []V) string {
+		keys := a[0].Strs()
+		ls, bs := sigbits.ShardByPrefix(keys, a[1].I32())
+		return L(I32s(ls), I32s(bs), I32s(c17Route(keys, ls, bs)))
+	}
 	Register("C17", genC17)
+}
+
+func c17Route(keys []string, ls, bs []int32) []int32 {
+	prefs := make([]string, len(ls))
+	for j := range ls {
+		prefs[j] = keys[bs[j]][:ls[j]]
+	}
+	rs := make([]int32, len(keys))
+	for i, k := range keys {
+		rs[i] = int32(sort.Search(len(prefs), func(j int) bool { return prefs[j] > k })) - 1
+	}
+	return rs
 }
 
 // c17Key: branch-relevant features of one case, read off the keys and the
@@ -62,6 +82,10 @@ func genC17(g *Gen) {
 			key = c17Key(keys, maxSize, ls, bs)
 		}()
 		g.Do("sigbits.ShardByPrefix", L(Strs(keys), Int(maxSize)), key)
+		if key != "" {
+			key = "route/" + key
+		}
+		g.Do("sigbits.ShardByPrefix/route", L(Strs(keys), Int(maxSize)), key)
 	}
 	allSizes := func(keys []string, bucket string) {
 		for ms := 1; ms <= len(keys)+1; ms++ {
@@ -123,6 +147,20 @@ func genC17(g *Gen) {
 			}
 			allSizes(c16SortDedup(ks), "shape-chain")
 		}
+	}
+	// (2b) long keys: key lengths and shared prefixes around 2^8 and 2^13 bytes (bit positions around
+	// 2^11 and 2^16), and one key beyond 2^16 bytes -- a length or bit position kept in a narrower
+	// integer shows here only
+	{
+		for _, pl := range []int{254, 255, 256, 257, 300, 8191, 8192, 8193} {
+			al := [][]byte{{'a', 'b'}, {0x00, 0x80, 0xff}}[g.R.Intn(2)]
+			p := string(g.R.Bytes(pl, al))
+			allSizes([]string{p}, "shape-long")
+			allSizes(c16SortDedup([]string{p[:pl-1], p, p + "\x00", p + "a", p + "ab"}), "shape-long")
+		}
+		big := strings.Repeat("a", 65537)
+		allSizes([]string{big}, "shape-long")
+		allSizes([]string{big[:65536], "b"}, "shape-long")
 	}
 	// (3) structured random key sets
 	nb := g.N(500, 10000)
